@@ -870,6 +870,10 @@ class Process(StateMachine, persistence.Savable, metaclass=ProcessStateMachineMe
                 finished_state = state_cls(self, result=result, successful=False)
                 raise StateEntryFailed(finished_state)
 
+        # The future may have been cancelled by the caller; replace it (as in ``on_except``) instead of letting
+        # ``asyncio`` raise, which would turn a finished process into an excepted one.
+        if self.future().done():
+            self._future = persistence.SavableFuture(loop=self._loop)
         self.future().set_result(self.outputs)
 
     @super_check
